@@ -139,7 +139,7 @@ PROPS = {
     },
     "C02": {
         "level": "other",
-        "units": ["compressors"],
+        "units": ["compressors", "msgbuilder"],
         "kani": [
             {"group": "g0", "name": "c02_header_counts_inc_total", "kind": "complete", "tier": "quick",
              "what": "HeaderCounts::inc_{qd,an,ns,ar}count on every 12-octet header: exact increment, CountOverflow exactly at 0xFFFF, "
@@ -161,7 +161,11 @@ PROPS = {
                        "StaticCompressor::insert remembers a position only if it is below 0x4000 (so `pos | 0xC000` is a faithful "
                        "RFC 1035 4.1.4 pointer: lemma_pointer_faithful), keeps the table sorted and in range; Truncate for "
                        "StaticCompressor forgets exactly the entries at or behind the cut; HashEntry::new accepts a head position "
-                       "iff it is below 0x4000. Kani: HeaderCounts increments complete over all headers; StreamTarget prefix and "
+                       "iff it is below 0x4000. MessageBuilder::push (the function every question/record/OPT push goes through; real text, closure "
+                       "parameters under contract): whatever the composing closure appended and whichever of the three failures "
+                       "occurs (target full, push limit reached, count overflow), an Err leaves the target octets -- header counts "
+                       "included -- exactly as they were; an Ok leaves the message strictly below the push limit with everything "
+                       "outside the counters extended only by what was appended. Kani: HeaderCounts increments complete over all headers; StreamTarget prefix and "
                        "all-or-nothing push are bounded harnesses (bounds stated). Native replay of D4 for all three compressors.",
         "not_covered": "The sequence-level round trip (arbitrary pushes parse back to the same items) is not under contract: a CBMC "
                        "harness for it does not terminate, MessageBuilder::push takes FnOnce(&mut Target) closures (outside Verus), "
@@ -170,6 +174,7 @@ PROPS = {
                        "HashCompressor (hash maps, label iterators) are covered only by the native D4 replay. BytesMut/heapless targets.",
         "assumptions": [
             "octseq Truncate is modelled by a prelude trait (truncate keeps the first len octets)",
+            "MessageBuilder::push: the composing closure only appends to the target; the counting closure leaves the counts unchanged when it fails (HeaderCounts::inc_*: Kani c02_header_counts_inc_total); counts_mut() is the octets 4..12 window of the target (pointer cast, CBMC-checked)",
         ],
     },
     "C04": {
